@@ -461,6 +461,10 @@ func runC19(tier string, seed uint64, o *Out) error {
 			return err
 		}
 	}
+	// forced: another producer sends between the expander's len/cap snapshot and its write lock
+	if err := c19SendDuringExpansionFamily(tier, NewRNG(seed+77), o); err != nil {
+		return err
+	}
 	for i := 0; i < nSeq; i++ {
 		c := c19RandCfg(rng, []int{0, 1, 2, 3, 3, 3}[rng.Intn(6)])
 		if err := c19Sequential(c, rng, 10+rng.Intn(40), o); err != nil {
